@@ -163,4 +163,216 @@ example : ¬ (SpinlessFermions_U1.op "c" ≃ SpinlessFermions_U1.op "cp") := by 
 example : ¬ SpinfulAnticommuting SpinfulFermions_U1xU1 := by decide
 example : ¬ SpinfulCommuting SpinfulFermions_U1 := by decide
 
+/-! ## 2. `_parse_2site_bonds` -/
+
+/-- **parse_bonds_spec** (all `N`, all flag combinations and offset lists): the result of `_parse_2site_bonds` is
+strictly increasing in the lexicographic order (hence sorted and duplicate-free) and contains EXACTLY the pairs the
+documentation assigns to the pattern (`inPattern`): `'a'` all `(i,j)`; `'<'`: `i<j`; `'='`: `i=j`; `'>'`: `i>j`;
+`'rX'`: `(i, i+X)` inside the chain; with `'p'`: `(i, (i+X) mod N)`. -/
+theorem parse_bonds_spec (p : Pattern) (N : Nat) :
+    (∀ x, x ∈ bondsOf p N ↔ inPattern p N x) ∧ (bondsOf p N).Pairwise lexLt := by
+  unfold bondsOf
+  obtain ⟨h1, h2⟩ := sortedSet_spec (rawPairs p N)
+  exact ⟨fun x => (h1 x).trans (mem_rawPairs p N x), h2⟩
+
+/-- the string-level function is the scanner followed by `bondsOf`; `none` ⇔ `int(r)` raises -/
+theorem parse2siteBonds_eq (s : String) (N : Nat) : parse2siteBonds s N = (parsePattern s).map (fun p => bondsOf p N) := rfl
+
+/-- the scanner on the documented pattern strings -/
+theorem parsePattern_documented :
+    parsePattern "<" = some ⟨false, true, false, false, false, []⟩ ∧
+    parsePattern "=" = some ⟨false, false, true, false, false, []⟩ ∧
+    parsePattern ">" = some ⟨false, false, false, true, false, []⟩ ∧
+    parsePattern "a" = some ⟨true, false, false, false, false, []⟩ ∧
+    parsePattern "<=>" = some ⟨false, true, true, true, false, []⟩ ∧
+    parsePattern "r1" = some ⟨false, false, false, false, false, [1]⟩ ∧
+    parsePattern "r-2" = some ⟨false, false, false, false, false, [-2]⟩ ∧
+    parsePattern "r1p" = some ⟨false, false, false, false, true, [1]⟩ ∧
+    parsePattern "pr1r-3" = some ⟨false, false, false, false, true, [1, -3]⟩ ∧
+    parsePattern "<r-1" = some ⟨false, true, false, false, false, [-1]⟩ ∧
+    parsePattern "r" = none ∧ parsePattern "r1.5" = none := by decide
+
+/-- `'a'` is equivalent to `"<=>"` (documentation) -/
+theorem pattern_a_eq_all (N : Nat) (x : Int × Int) :
+    x ∈ bondsOf ⟨true, false, false, false, false, []⟩ N ↔ x ∈ bondsOf ⟨false, true, true, true, false, []⟩ N := by
+  rw [(parse_bonds_spec _ N).1, (parse_bonds_spec _ N).1]
+  unfold inPattern
+  simp only [Bool.false_eq_true, false_and, false_or, true_and, and_true, List.not_mem_nil, exists_false, or_false]
+  constructor
+  · rintro ⟨h1, h2⟩; exact ⟨h1, h2, by omega⟩
+  · rintro ⟨h1, h2, _⟩; exact ⟨h1, h2⟩
+
+example : bondsOf ⟨false, false, false, false, true, [1]⟩ 4 = [(0, 1), (1, 2), (2, 3), (3, 0)] := by decide
+example : bondsOf ⟨false, true, false, false, false, [-1]⟩ 3 = [(0, 1), (0, 2), (1, 0), (1, 2), (2, 1)] := by decide
+example : parse2siteBonds "r1r-1" 3 = some [(0, 1), (1, 0), (1, 2), (2, 1)] := by decide
+
+/-! ## 3. sign algebra of the Jordan–Wigner embedding
+
+`L` is the local operator algebra (any ring; the executable model instantiates the same generic `embedAt` with list
+matrices), `z m` the string operator `Z^{m}`, `S : KronSem L D k` the Kronecker product of `k` local factors with the
+mixed-product property and sign-homogeneity (validated for the executable `kronAll` and NumPy's `kron` by the
+correspondence run).  `Graded w z A nA` (parity-definiteness) holds for every table operator by
+`tables_parity_definite`. -/
+section signs
+variable {L D : Type} [Ring L] [Ring D] {k : Nat}
+
+/-- `embed i A` as a dense operator -/
+def embedD (S : KronSem L D k) (z : Charge → L) (fpos : Nat → Int) (i : Nat) (A : L) (nA : Charge) : D :=
+  S.dense (embedAt 1 z fpos i A nA)
+
+/-- **graded_commute**: parity-definite `A`, `B` on sites at different fermionic positions satisfy
+`embed i A · embed j B = (−1)^{⟨|A|,|B|⟩} embed j B · embed i A`. -/
+theorem graded_commute (S : KronSem L D k) (f : Fermionic) (z : Charge → L) (fpos : Nat → Int)
+    (hzz : ∀ a b, z a * z b = z b * z a) {i j : Nat} (hi : i < k) (hj : j < k) (hne : fpos i ≠ fpos j)
+    (A B : L) (nA nB : Charge) (hA : Graded f.weight z A nA) (hB : Graded f.weight z B nB) :
+    embedD S z fpos i A nA * embedD S z fpos j B nB
+      = ((sgn (f.weight nA nB) : Int) : D) * (embedD S z fpos j B nB * embedD S z fpos i A nA) := by
+  have hij : i ≠ j := fun h => hne (by rw [h])
+  unfold embedD
+  rcases Int.lt_or_gt_of_ne hne with h | h
+  · have := embed_graded_commute_lt S f.weight z fpos hzz hi h hij A B nA nB hA
+    rw [this, ← mul_assoc, cast_sgn_mul_self, one_mul]
+  · have := embed_graded_commute_lt S f.weight z fpos hzz hj h (Ne.symm hij) B A nB nA hB
+    rw [this, weight_comm]
+
+theorem swapSign_single (f : Fermionic) (a b : Charge) : swapSign f [a] [b] = sgn (f.weight a b) := by
+  rw [swap_sign_formula]
+  by_cases ht : f.truthy = true
+  · simp [ht, sprod]
+  · have ht' : f.truthy = false := by simpa using ht
+    simp [ht', weight_falsy f ht', sgn_zero]
+
+/-- **measure2_reversed_sign**: for `i > j` (linear fermionic order of an MPS) `measure_2site` evaluates `⟨P_j O_i⟩`
+and multiplies by `swap_charges([O.n],[P.n])` (`_measure.py:233`): `O_i P_j = swapSign(O.n, P.n) · P_j O_i`, hence
+`ev(O_i P_j) = swapSign · ev(P_j O_i)` for every sign-homogeneous evaluation `ev` (e.g. `⟨bra| · |ket⟩`). -/
+theorem measure2_reversed_sign (S : KronSem L D k) (f : Fermionic) (z : Charge → L)
+    (hzz : ∀ a b, z a * z b = z b * z a) {i j : Nat} (hi : i < k) (hji : j < i)
+    (O P : L) (nO nP : Charge) (hO : Graded f.weight z O nO) (hP : Graded f.weight z P nP)
+    {R : Type} [Ring R] (ev : D → R) (hev : ∀ (s : Int) (X : D), ev ((s : D) * X) = (s : R) * ev X) :
+    let fpos : Nat → Int := fun s => (s : Int)
+    embedD S z fpos i O nO * embedD S z fpos j P nP
+        = ((swapSign f [nO] [nP] : Int) : D) * (embedD S z fpos j P nP * embedD S z fpos i O nO) ∧
+      ev (embedD S z fpos i O nO * embedD S z fpos j P nP)
+        = ((swapSign f [nO] [nP] : Int) : R) * ev (embedD S z fpos j P nP * embedD S z fpos i O nO) := by
+  intro fpos
+  have hj : j < k := by omega
+  have hne : fpos i ≠ fpos j := by simp only [fpos]; omega
+  have h := graded_commute S f z fpos hzz (i := i) (j := j) hi hj hne O P nO nP hO hP
+  rw [swapSign_single]
+  exact ⟨h, by rw [h, hev]⟩
+
+/-- one operator of an `Hterm`: site, local operator, charge -/
+structure TermOp (L : Type) where
+  site : Nat
+  A : L
+  n : Charge
+
+def TermOp.toE (S : KronSem L D k) (z : Charge → L) (fpos : Nat → Int) (o : TermOp L) : EOp Int D :=
+  ⟨fpos o.site, o.n, embedD S z fpos o.site o.A o.n⟩
+
+/- FULL statement (not proved as a whole):
+   theorem term_eq_ordered_product : for every operator tuple, positions (with repetitions, any order) and injective f_map,
+     userProduct L fpos k ops = mpoRule L f nsym fpos k ops
+   i.e. `∏_user embed(site_m, A_m) = signCanonicalOrder(f-positions, charges) · ⨂_n (onsiteProduct_n · Z^{fCharge n})`.
+   Proved below: ALL the sign content — the user-order product equals `signCanonicalOrder` times the product of the SAME
+   embedded operators in canonical order (stable sort by fermionic position: same-site operators keep the given order).
+   Not proved in Lean (sign-free Kronecker bookkeeping, covered by the exact model-vs-NumPy-vs-real-code correspondence
+   of `mpoRule`): that the canonically ordered product merges into `⨂_n (onsiteProduct_n · Z^{Σ later charges})`. -/
+/-- **term_eq_ordered_product (sign part)**: `generate_mpo`'s sign `sign_canonical_order(f-mapped positions)` is exactly
+the sign that brings the user's product into canonical order — for any number of operators, repeated sites, any
+order, any fermionic map that is injective on the sites used. -/
+theorem term_eq_ordered_product_partial (S : KronSem L D k) (f : Fermionic) (z : Charge → L) (fpos : Nat → Int)
+    (hzz : ∀ a b, z a * z b = z b * z a) (ops : List (TermOp L))
+    (hsite : ∀ o ∈ ops, o.site < k)
+    (hgraded : ∀ o ∈ ops, Graded f.weight z o.A o.n) :
+    prodE (ops.map (TermOp.toE S z fpos))
+      = ((signCanonicalOrder f (fun (a b : Int) => decide (a ≤ b)) (ops.map (fun o => (fpos o.site, o.n))) : Int) : D)
+          * prodE (isort (leE (fun (a b : Int) => decide (a ≤ b))) (ops.map (TermOp.toE S z fpos))) := by
+  rw [signCanonicalOrder_eq_inversions f int_le_totalPreorder]
+  have hkey : (ops.map (TermOp.toE S z fpos)).map EOp.key = ops.map (fun o => (fpos o.site, o.n)) := by
+    rw [List.map_map]; rfl
+  rw [← hkey]
+  apply prodE_reorder f int_le_totalPreorder
+  intro a ha b hb hab
+  obtain ⟨oa, hoa, rfl⟩ := List.mem_map.mp ha
+  obtain ⟨ob, hob, rfl⟩ := List.mem_map.mp hb
+  have hab' : ¬ (fpos oa.site ≤ fpos ob.site) := by
+    intro hle
+    have hd : decide (fpos oa.site ≤ fpos ob.site) = true := decide_eq_true hle
+    have hab2 : decide (fpos oa.site ≤ fpos ob.site) = false := hab
+    rw [hd] at hab2
+    exact absurd hab2 (by decide)
+  have hne : fpos oa.site ≠ fpos ob.site := by omega
+  simp only [TermOp.toE]
+  exact graded_commute S f z fpos hzz (hsite oa hoa) (hsite ob hob) hne oa.A ob.A oa.n ob.n
+    (hgraded oa hoa) (hgraded ob hob)
+
+end signs
+
+/-! ### bosonic configurations -/
+
+theorem zmat_bosonic (fss : List Bool) (hf : ∀ x ∈ fss, x = false) (basis : List Charge) (n : Charge) :
+    zmat fss basis n = ident basis.length := by
+  unfold zmat diagMat ident zdiag
+  simp only [List.length_map]
+  apply List.map_congr_left
+  intro i hi
+  apply List.map_congr_left
+  intro j _
+  by_cases hij : i = j
+  · simp only [hij, if_true]
+    have hj : j < basis.length := by rw [← hij]; exact List.mem_range.mp hi
+    simp [List.getD, hj, fdot_allFalse fss _ _ hf, sgn_zero]
+    rfl
+  · simp only [hij, if_false]
+
+/-- **strings_absent_bosonic**: with a falsy `config.fermionic` (`False` or an empty tuple) `generate_mpo`'s sign is `+1`
+for every term, and whenever no charge component is fermionic (`False`, empty or all-`False` mask) every string
+`Z^{n}` is the identity, so each embedding is the plain Kronecker product `1 ⊗ … ⊗ A ⊗ … ⊗ 1`. -/
+theorem strings_absent_bosonic (F : Local) (f : Fermionic) (fpos : Nat → Int) :
+    (f.truthy = false → ∀ ops : List TOp, ruleSign f fpos ops = 1) ∧
+    ((∀ x ∈ F.fss, x = false) → ∀ (n : Charge), zmat F.fss F.basis n = ident F.d) ∧
+    ((∀ x ∈ F.fss, x = false) → ∀ (k i : Nat) (A : Mat) (nA : Charge),
+        embedFactors F fpos k i A nA = (List.range k).map (fun j => if j = i then A else ident F.d)) := by
+  refine ⟨?_, ?_, ?_⟩
+  · intro hf ops
+    unfold ruleSign signCanonicalOrder
+    simp [hf]
+  · intro hf n
+    exact zmat_bosonic F.fss hf F.basis n
+  · intro hf k i A nA
+    unfold embedFactors
+    apply List.map_congr_left
+    intro j _
+    unfold embedAt
+    rw [zmat_bosonic F.fss hf F.basis nA]
+    simp only [Local.d, ite_self]
+
+/-- every bosonic table has no fermionic component -/
+theorem tables_bosonic_no_strings :
+    ∀ F ∈ OpTables.all, F.ferm = Fermionic.none → (∀ x ∈ F.loc.fss, x = false) := by decide
+
+/-! ### non-vacuity -/
+
+/-- the hypotheses of `KronSem` are satisfiable: two sites over a commutative ring, `dense a = a 0 · a 1` -/
+def kronInt2 : KronSem Int Int 2 where
+  dense a := a 0 * a 1
+  dense_congr a b h := by rw [h 0 (by omega), h 1 (by omega)]
+  dense_mul a b := by simp only [Int.mul_assoc, Int.mul_left_comm, Int.mul_comm]
+  dense_sign a m s hm := by
+    have : m = 0 ∨ m = 1 := by omega
+    rcases this with rfl | rfl
+    · simp [Function.update, Int.mul_assoc]
+    · simp [Function.update, Int.mul_left_comm]
+
+/-- the executable model on a concrete non-trivial instance: spinless fermions (`U1`), two sites:
+`c_0 c†_1 = − c†_1 c_0` and generate_mpo's rule reproduces the user-order product for an out-of-order term -/
+example :
+    let F := SpinlessFermions_U1
+    let c : TOp := ⟨0, (F.op "c").m, F.charge "c"⟩
+    let cp : TOp := ⟨1, (F.op "cp").m, F.charge "cp"⟩
+    userProduct F.loc (fun s => s) 2 [cp, c] = matScale (K.ofInt (-1)) (userProduct F.loc (fun s => s) 2 [c, cp]) ∧
+    mpoRule F.loc F.ferm F.nsym (fun s => s) 2 [cp, c] = userProduct F.loc (fun s => s) 2 [cp, c] ∧
+    ruleSign F.ferm (fun s => s) [cp, c] = -1 := by decide
+
 end YModel.JW
